@@ -1281,9 +1281,15 @@ def _check_solved(case, it, w, viol, stats, probe, props):
                 expr = expr - np.array(case['c'][i][lo:hi]) @ it.env[an]
             got = expr(zobj.assign(zv[:n1_]))
             rows_e, _ = _series_to_rows(got, S)
+            # the decision's own value at the realisation comes from y(z.assign(v)) (its coefficients are not unique in a
+            # scenario that does not attain the worst case of its event, so the closed-form ones cannot be used in dro)
+            rows_y = _series_to_rows(it.env['y'](zobj.assign(zv[:n1_])), S)[0] if case['kind'] == 'combo-dro' else None
+            zfull = np.concatenate([zv[:n1_], np.zeros(len(zv) - n1_)])
             for s in range(S):
                 Yrow = np.array([0.0 if v is None else v for v in ex['Y'][i]])
                 want = float(rows_c[s][i]) + Yrow @ zv - np.array(case['c'][i]) @ zv
+                if case['kind'] == 'combo-dro':
+                    want = float(np.asarray(rows_y[s], float).reshape(-1)[i]) - np.array(case['c'][i]) @ zfull
                 if not close(float(rows_e[s].reshape(-1)[0]), want, 1e-5):
                     viol('C12', 'expr-eval-biaffine', '(y[%d] - c.z)(z.assign(%s)) = %.9g at label %r, NumPy evaluation %.9g'
                          % (i, list(zv), rows_e[s].reshape(-1)[0], labels[s], want))
@@ -1293,8 +1299,9 @@ def _check_solved(case, it, w, viol, stats, probe, props):
                 stats['checks_c12'] += 1
                 vals = [zv * (0.5 * s + 1.0) for s in range(S)]
                 rows_e, _ = _series_to_rows(expr(zobj.assign(np.array(vals), sw=True)), S)
+                rows_y, _ = _series_to_rows(it.env['y'](zobj.assign(np.array(vals), sw=True)), S)
                 for s in range(S):
-                    want = float(rows_c[s][i]) + Yrow @ vals[s] - np.array(case['c'][i]) @ vals[s]
+                    want = float(np.asarray(rows_y[s], float).reshape(-1)[i]) - np.array(case['c'][i]) @ vals[s]
                     if not close(float(rows_e[s].reshape(-1)[0]), want, 1e-5):
                         viol('C12', 'expr-eval-biaffine-scenariowise', '(y[%d] - c.z)(z.assign(values, sw=True)) = %.9g at label %r '
                              '(realisation %s), NumPy evaluation %.9g' % (i, rows_e[s].reshape(-1)[0], labels[s], list(vals[s]), want))
